@@ -1,7 +1,7 @@
 (* Props/C05.v — ||, &&, ?: are lazy and absorb failures by fixed rules; one truthiness. *)
 From Coq Require Import ZArith List Bool.
 From Rscel Require Import Base.Prims Model.Value Model.Ops Model.Funcs Model.Interp.
-From Rscel Require Import Proofs.Blocks Proofs.Truthy.
+From Rscel Require Import Proofs.Blocks Proofs.BlocksAnd Proofs.Truthy.
 Import ListNotations.
 Import Coq.Strings.String.StringSyntax.
 Open Scope Z_scope.
@@ -42,6 +42,24 @@ Theorem C05_or_rhs_fails : forall rs E d ca cb lg sva lg1 va lg2 e lg3,
   forall st, exists f, loop rs f E d (or_code ca cb) O st lg = (RErr e, lg3).
 Proof. exact or_rhs_fails. Qed.
 Print Assumptions C05_or_rhs_fails.
+
+(** a && b when a is truthy (does not decide): b is evaluated and the result is Ops.and_ of true and b's value;
+    a hard failure of b fails the whole expression *)
+Theorem C05_and_evaluates_rhs : forall rs E d ca cb lg sva lg1 va lg2 svb lg3 vb lg4,
+  pushes rs E d ca lg sva lg1 -> resolves rs E d sva lg1 va lg2 ->
+  is_err va = false -> is_truthy va = true ->
+  pushes rs E d cb lg2 svb lg3 -> resolves rs E d svb lg3 vb lg4 ->
+  forall st, exists f, loop rs f E d (and_code ca cb) O st lg = (ROk (SVal (and_ (VBool true) vb) :: st), lg4).
+Proof. exact and_evaluates_rhs. Qed.
+Print Assumptions C05_and_evaluates_rhs.
+
+Theorem C05_and_rhs_fails : forall rs E d ca cb lg sva lg1 va lg2 e lg3,
+  pushes rs E d ca lg sva lg1 -> resolves rs E d sva lg1 va lg2 ->
+  is_err va = false -> is_truthy va = true ->
+  fails rs E d cb lg2 e lg3 ->
+  forall st, exists f, loop rs f E d (and_code ca cb) O st lg = (RErr e, lg3).
+Proof. exact and_rhs_fails. Qed.
+Print Assumptions C05_and_rhs_fails.
 
 (** || yields true when either side is truthy even if the other fails; otherwise a failing operand fails. *)
 Theorem C05_or_spec : forall a b,
